@@ -484,7 +484,7 @@ func runSearchCase(g *Gen, o *Out) {
 				o.Fail("bsearch:estimate-out-of-bounds", line)
 			}
 			fx, _ := f(r)
-			if tol.Compare(osmomath.NewIntFromBigInt(target), fx) != 0 {
+			if !refWithinTolerance(new(big.Rat).SetInt(target), new(big.Rat).SetInt(fx.BigInt()), addS, mulS, p18, dir) {
 				o.Fail("bsearch:postcondition", line)
 			}
 			if dir == 1 && fx.BigInt().Cmp(target) < 0 {
@@ -529,11 +529,52 @@ func runSearchCase(g *Gen, o *Out) {
 			if x.Cmp(lo) < 0 || x.Cmp(hi) > 0 {
 				o.Fail("bsearchBig:estimate-out-of-bounds", line)
 			}
-			if tol.CompareBigDec(bd(target), fb(r)) != 0 {
+			if !refWithinTolerance(new(big.Rat).SetFrac(target, p36), new(big.Rat).SetFrac(fb(r).BigInt(), p36), addS, mulS, p18, dir) {
 				o.Fail("bsearchBig:postcondition", line)
 			}
 		}
 	}
+}
+
+// refWithinTolerance: the documented meaning of ErrTolerance.Compare == 0, in exact rationals and independent of the
+// code under test: requested side respected; |e-a| <= additive (when given); |e-a|/min(|e|,|a|) <= multiplicative
+// (when given and non-zero; a zero minimum is never within a multiplicative tolerance unless e == a under additive 0).
+func refWithinTolerance(e, a *big.Rat, addS, mulS string, scale *big.Int, dir int) bool {
+	if dir == 2 && e.Cmp(a) < 0 {
+		return false
+	}
+	if dir == 1 && e.Cmp(a) > 0 {
+		return false
+	}
+	diff := new(big.Rat).Sub(e, a)
+	diff.Abs(diff)
+	if addS != "nil" {
+		add, _ := new(big.Int).SetString(addS, 10)
+		if add.Sign() == 0 && e.Cmp(a) == 0 {
+			return true
+		}
+		if diff.Cmp(new(big.Rat).SetFrac(add, scale)) > 0 {
+			return false
+		}
+	}
+	if mulS != "nil" && mulS != "0" {
+		mul, _ := new(big.Int).SetString(mulS, 10)
+		mn := new(big.Rat).Abs(e)
+		if x := new(big.Rat).Abs(a); x.Cmp(mn) < 0 {
+			mn = x
+		}
+		if mn.Sign() == 0 {
+			return false
+		}
+		// the code compares the half-even 18/36-decimal quotient; allow one unit of that rounding
+		q := new(big.Rat).Quo(diff, mn)
+		lim := new(big.Rat).SetFrac(mul, scale)
+		slack := new(big.Rat).SetFrac(big.NewInt(1), new(big.Int).Mul(scale, big.NewInt(1)))
+		if q.Cmp(new(big.Rat).Add(lim, slack)) > 0 {
+			return false
+		}
+	}
+	return true
 }
 
 func evalF(kind string, a, b, x *big.Int) *big.Int {
